@@ -42,7 +42,11 @@ func loadTheory(dir string) (*Theory, error) {
 			switch {
 			case strings.HasPrefix(line, "(declare-fun"):
 				if m := declRe.FindStringSubmatch(line); m != nil {
-					th.Funs[m[1]] = FunSig{Args: sorts(m[2]), Ret: Sort(strings.TrimSpace(m[3]))}
+					ret := Sort(strings.TrimSpace(m[3]))
+					if ret == "Rune" {
+						ret = SBV32
+					}
+					th.Funs[m[1]] = FunSig{Args: sorts(m[2]), Ret: ret}
 				}
 				th.Decls += line + "\n"
 			case strings.HasPrefix(line, "(declare-const"):
